@@ -17,6 +17,8 @@ struct Call
     uint64_t ic[8], ia[8], ib[8];                                  // index lists (mutable on purpose: some overloads take uint64_t x[4])
     Goldilocks::Element vc, va, vb;                                // broadcast values (vc unused)
     alignas(64) uint64_t rc[8], ra[8], rb[8];                      // registers
+    int bcast_alias = 0;       // 1 / 2: the broadcast scalar of operand a / b is passed as the lvalue c[bcast_cell] (it lives in the result array)
+    uint64_t bcast_cell = 0;
     int regalias = 0; // 1 / 2: the result register handed to the overload IS the register object of operand a / b (in-place call form)
 };
 typedef void (*Thunk)(Call &);
